@@ -1,14 +1,19 @@
 #!/bin/bash
-# usage: seeded_confirm.sh <seed-id> <PROP> [other props to run]   (seed dir /tmp/seed_<id>, worktree /tmp/wt_<id>)
+# usage: seeded_confirm.sh <seed-id> <PROP> [other props to run]   (seed dir /tmp/seed_<id>)
+# confirms in MY OWN scratch worktree (fresh checkout of /repo HEAD + the patch), never in the agent's
 id=$1; prop=$2; shift 2
-sd=/tmp/seed_$id; wt=/tmp/wt_$id
-echo "== demo on modified worktree (expect non-zero)"
-(cd $wt && JAX_PLATFORMS=cpu PYTHONPATH=$wt/src timeout 1500 /venv/bin/python $sd/demo.py > /tmp/demo_mod_$id.log 2>&1; echo "exit=$?")
+sd=/tmp/seed_$id; cw=/tmp/cw_$id
+git -C /repo worktree remove --force $cw 2>/dev/null
+git -C /repo worktree add -q $cw HEAD || exit 1
+git -C $cw apply $sd/patch.diff || { echo "PATCH DOES NOT APPLY"; git -C /repo worktree remove --force $cw; exit 1; }
+echo "== demo on scratch worktree with the patch (expect non-zero)"
+(cd $cw && JAX_PLATFORMS=cpu PYTHONPATH=$cw/src timeout 2400 /venv/bin/python $sd/demo.py > /tmp/demo_mod_$id.log 2>&1; echo "exit=$?")
+git -C /repo worktree remove --force $cw
 echo "== demo on /repo (expect 0)"
-(cd /repo && JAX_PLATFORMS=cpu PYTHONPATH=/repo/src timeout 1500 /venv/bin/python $sd/demo.py > /tmp/demo_orig_$id.log 2>&1; echo "exit=$?")
+(cd /repo && JAX_PLATFORMS=cpu PYTHONPATH=/repo/src timeout 2400 /venv/bin/python $sd/demo.py > /tmp/demo_orig_$id.log 2>&1; echo "exit=$?")
 echo "== checks with the patch applied to /repo"
 git -C /repo apply $sd/patch.diff || { echo "PATCH DOES NOT APPLY"; exit 1; }
 for p in $prop "$@"; do
-  GINVERIF_NO_EVIDENCE=1 /verif/check $p --tier quick > /tmp/seedcheck_${id}_$p.log 2>&1; echo "$p exit=$? $(grep -m1 '^  ' /tmp/seedcheck_${id}_$p.log | cut -c1-260)"
+  GINVERIF_NO_EVIDENCE=1 /verif/check $p --tier quick > /tmp/seedcheck_${id}_$p.log 2>&1; echo "$p exit=$? $(grep -m1 '^  \|ANALYSIS' /tmp/seedcheck_${id}_$p.log | cut -c1-260)"
 done
 git -C /repo checkout -- . ; git -C /repo status --short | head -3
